@@ -174,7 +174,7 @@ impl<'de, R: Reader<'de>> Parser<R> {
                 &&& (number_end_l(s, p).is_none() ==> res.is_err())
             }),
             final(self).read.idx() >= old(self).read.idx(),
-//@before /let start = self\.read\.index\(\) - 1;/
+//@before /let start =/
             proof { lemma_lenient_extends_grammar(self.read.data(), if at(self.read.data(), self.read.idx() - 1, 0x2d) { self.read.idx() as int } else { self.read.idx() - 1 }); }
 //@end
 
@@ -236,7 +236,7 @@ impl<'de, R: Reader<'de>> Parser<R> {
                 + arr_rest_events(old(self).read.data(), old(self).read.idx() as int, old(self).cfg.use_rawnumber),
             final(self).read.idx() >= old(self).read.idx(),
         decreases old(self).read.data().len() - old(self).read.idx(), 2nat
-//@before /check_visit!\(self, visitor\.visit_array_start\(0\)\)\?;/
+//@before /check_visit!\(self, visitor\.visit_array_start/
         let ghost s = self.read.data();
         let ghost i0 = self.read.idx() as int;
         let ghost t0 = visitor.trace();
@@ -247,7 +247,7 @@ impl<'de, R: Reader<'de>> Parser<R> {
             lemma_seq_push(t0, Ev::ArrStart);
             lemma_seq_push(t0 + seq![Ev::ArrStart], Ev::ArrEnd(0));
         }
-//@before /let mut count = 0;/
+//@before /let mut count/
         proof {
             if first.is_some() {
                 let vs0 = self.read.idx() as int - 1;
@@ -275,7 +275,7 @@ impl<'de, R: Reader<'de>> Parser<R> {
                     lemma_seq_assoc(th, seq![Ev::ArrStart], arr_rest_events(s, vs + 1, raw));
                 }
             }
-//@before /^            count \+= 1;/
+//@before /^            count /
             let ghost e = self.read.idx() as int;
             proof {
                 assert(value_end_l(s, vs) == Some(e));
@@ -307,7 +307,7 @@ impl<'de, R: Reader<'de>> Parser<R> {
                 + obj_rest_events(old(self).read.data(), old(self).read.idx() as int, old(self).cfg.use_rawnumber),
             final(self).read.idx() >= old(self).read.idx(),
         decreases old(self).read.data().len() - old(self).read.idx(), 2nat
-//@before /let mut count: usize = 0;/
+//@before /let mut count/
         let ghost s = self.read.data();
         let ghost i0 = self.read.idx() as int;
         let ghost t0 = vis.trace();
